@@ -3216,7 +3216,9 @@ def grouped_reduce(inp: AlignedArrays, *, agg: Scan, axis: int, keepdims=None) -
         func=(agg.reduction,),
         axis=axis,
         engine="flox",
-        dtype=inp.array.dtype,
+        # block totals are carried in the dtype of the result: that of the block would wrap
+        # for small integers (and for the int8 view of a boolean array)
+        dtype=agg.dtype,
         fill_value=agg.identity,
         expected_groups=None,
     )
